@@ -74,7 +74,7 @@ theorem readExponent_exp (n : Nat) (exp r : Text) (he : exp = [] ∨ Spec.Lexica
             simp only [Bool.and_eq_true] at hrest
             have := key d ds hrest.1 hrest.2
             simp only [List.cons_append] at this ⊢
-            simp [readExponent, hi, hx, this, Except.map]
+            simp [readExponent, skipSign, hi, hx, this, Except.map]
         · have hs : Spec.Lexical.stripSign (x :: u) = x :: u := by
             unfold Spec.Lexical.stripSign
             split
@@ -85,7 +85,7 @@ theorem readExponent_exp (n : Nat) (exp r : Text) (he : exp = [] ∨ Spec.Lexica
           simp only [Bool.and_eq_true] at hrest
           have := key x u hrest.1 hrest.2
           simp only [List.cons_append] at this ⊢
-          simp [readExponent, hi, hx, this, Except.map]
+          simp [readExponent, skipSign, hi, hx, this, Except.map]
 
 
 /-- the head of `frac ++ exp ++ r` is never a digit -/
@@ -139,7 +139,7 @@ theorem next_float (n : Nat) (w r : Text) (hw : FloatShape w) (hr : Safe r) :
       have hro := readOverInteger_ip n d ds (frac ++ (exp ++ r)) hip nd1
       simp only [List.cons_append, List.append_assoc] at hro htake ⊢
       rw [next_number n 45 _ (Or.inl rfl)]
-      simp only [readNumber, ↓reduceIte, hro, hfr, hex, hla, hflag, bind, Except.bind, pure, Except.pure, Except.map]
+      simp only [readNumber, skipMinus, ↓reduceIte, hro, hfr, hex, hla, hflag, bind, Except.bind, pure, Except.pure, Except.map]
       rw [htake]
   · cases ip with
     | nil => simp [Spec.Lexical.stripNegativeSign] at hip
@@ -159,7 +159,7 @@ theorem next_float (n : Nat) (w r : Text) (hw : FloatShape w) (hr : Safe r) :
         rcases hip with ⟨rfl, _⟩ | ⟨h, _⟩ <;> omega
       simp only [List.cons_append, List.append_assoc] at hro htake ⊢
       rw [next_number n d _ (Or.inr hdig)]
-      simp only [readNumber, hd45, ↓reduceIte, hro, hfr, hex, hla, hflag, bind, Except.bind, pure, Except.pure, Except.map]
+      simp only [readNumber, skipMinus, hd45, ↓reduceIte, hro, hfr, hex, hla, hflag, bind, Except.bind, pure, Except.pure, Except.map]
       rw [htake]
 
 /-- every FloatValue lexeme of the specification is a `FloatLexeme` -/
